@@ -24,12 +24,14 @@ class StubForcingGrid(ImmersedBodyForcingGrid):
     def __init__(self, grid_dim, num_lag_nodes, max_spacing):
         self.max_spacing = max_spacing
         super().__init__(grid_dim=grid_dim, num_lag_nodes=num_lag_nodes)
+        self.body_position = np.zeros((grid_dim, num_lag_nodes))
+        self.body_velocity = np.zeros((grid_dim, num_lag_nodes))
 
     def compute_lag_grid_position_field(self):
-        pass
+        self.position_field[...] = self.body_position
 
     def compute_lag_grid_velocity_field(self):
-        pass
+        self.velocity_field[...] = self.body_velocity
 
     def transfer_forcing_from_grid_to_body(self, body_flow_forces, body_flow_torques, lag_grid_forcing_field):
         pass
@@ -126,6 +128,32 @@ def check_instance(S, dim, reset, rep):
         sets = [op for op in traces[m] if op.kind == "AttrSet" and op.inst is inst]
         rep.ob("C10.a", "%s %s assigns no interaction state" % (lab, m), not sets, "assigns %s" % [o.attr for o in sets],
                key="C10.a|%d|%s|attrs|%s" % (dim, m, [o.attr for o in sets]), nontrivial=False)
+    # ---- every evaluation path works on the body's CURRENT marker positions and velocities ("move body" is part of the histories)
+    grid = inst.attrs["forcing_grid"]
+    gp, gv = grid.attrs["position_field"].alloc.id, grid.attrs["velocity_field"].alloc.id
+    bp, bv = grid.attrs["body_position"].alloc.id, grid.attrs["body_velocity"].alloc.id
+    for m, tr_m in traces.items():
+        st_m = run_store(tr_m, havoc=written_allocs(tr_m) | {P.alloc.id, V.alloc.id, gp, gv, bp, bv, arrs["eul_grid_velocity_field"].alloc.id,
+                                                             arrs["eul_grid_forcing_field"].alloc.id})
+        stale, fresh = [], set()
+        for name in st_m.def_order:
+            d = st_m.defs[name]
+            if d["kind"] != "ext":
+                continue
+            for e in _exprs_in(d["inputs"]):
+                for dep in deps_of(e):
+                    dd = st_m.defs.get(dep)
+                    if dd is None or dd["kind"] != "init":
+                        continue
+                    if dd["alloc"].id in (gp, gv):
+                        stale.append("%s reads the marker %s left by an earlier call" % (d["ext"], "positions" if dd["alloc"].id == gp else "velocities"))
+                    elif dd["alloc"].id in (bp, bv):
+                        fresh.add(dd["alloc"].id)
+        ok = not stale and fresh == {bp, bv}
+        rep.ob("C10.b", "%s %s uses the body's current markers" % (lab, m), ok,
+               "; ".join(sorted(set(stale))[:3]) if stale else ("marker positions and velocities are recomputed from the body before they are consumed"
+                                                                 if ok else "kernels never consume the body's %s" % ("positions" if bp not in fresh else "velocities")),
+               key="C10.b|%d|%s|fresh|%s" % (dim, m, sorted(set(stale))[:2] or sorted(fresh)))
     # ---- time_step(dt): single writer, P <- P + dt V, time += dt once
     tr = call(S, inst, "time_step", dt=sym("dt"))
     wr = numba_writes(tr, P.alloc.id)
@@ -296,6 +324,6 @@ def run(S, tier, rep):
             check_instance(S, dim, reset, rep)
     who_may_write(S, rep)
     rep.require_min("C10.a", 30)
-    rep.require_min("C10.b", 8)
+    rep.require_min("C10.b", 20)
     rep.require_min("C10.d", 8)
     rep.require_min("C10.e", 4)
